@@ -24,6 +24,7 @@ var sweeps []*SweepDef
 func init() {
 	sweeps = append(sweeps, &SweepDef{Rule: "L1", Gen: sweepL1})
 	sweeps = append(sweeps, &SweepDef{Rule: "E6", Gen: sweepE6})
+	sweeps = append(sweeps, &SweepDef{Rule: "ERR-USE", Gen: sweepERRUSE})
 }
 
 // sweepL1: delete each statement that releases a mutex field (x.Unlock(), defer x.RUnlock(), ...).
@@ -188,6 +189,75 @@ func sweepE6(p *Program) []*ControlDef {
 					return eds, nil
 				},
 			})
+		}
+	}
+	return out
+}
+
+// sweepERRUSE: empty the body of each `if err != nil { ...; return ... }` whose error
+// comes from a call, in the packages ERR-USE covers: the failure is then dropped.
+func sweepERRUSE(p *Program) []*ControlDef {
+	var out []*ControlDef
+	errT := types.Universe.Lookup("error").Type()
+	for _, rel := range []string{"database/transaction", "database/inmemory", "database", "server", "updates"} {
+		pk := p.Pkgs[rel]
+		if pk == nil {
+			continue
+		}
+		for _, f := range pk.Syntax {
+			for _, d := range f.Decls {
+				fd, ok := d.(*ast.FuncDecl)
+				if !ok || fd.Body == nil {
+					continue
+				}
+				fobj, _ := pk.TypesInfo.Defs[fd.Name].(*types.Func)
+				if fobj == nil {
+					continue
+				}
+				fname := typesFuncName(fobj)
+				n := 0
+				ast.Inspect(fd.Body, func(x ast.Node) bool {
+					if _, isLit := x.(*ast.FuncLit); isLit {
+						return false // closures have their own SSA function name
+					}
+					is, ok := x.(*ast.IfStmt)
+					if !ok || is.Else != nil || len(is.Body.List) == 0 {
+						return true
+					}
+					be, ok := is.Cond.(*ast.BinaryExpr)
+					if !ok || be.Op != token.NEQ {
+						return true
+					}
+					id, ok := be.X.(*ast.Ident)
+					if !ok {
+						return true
+					}
+					if nid, ok := be.Y.(*ast.Ident); !ok || nid.Name != "nil" {
+						return true
+					}
+					if tv, ok := pk.TypesInfo.Types[be.X]; !ok || !types.Identical(tv.Type, errT) {
+						return true
+					}
+					if _, isRet := is.Body.List[len(is.Body.List)-1].(*ast.ReturnStmt); !isRet {
+						return true
+					}
+					// the tested variable must be assigned from a call right before (init statement
+					// of the if, or the statement defining it): keep it simple and let the rule decide
+					_ = id
+					n++
+					body := is.Body
+					key := fmt.Sprintf("%s#%d", fname, n)
+					out = append(out, &ControlDef{
+						Name:   "sweep: empty the error branch at " + p.Pos(is.Pos()) + " in " + key,
+						Rule:   "ERR-USE",
+						Expect: fname + "|error of",
+						Edit: func(p2 *Program) ([]TextEdit, error) {
+							return []TextEdit{p2.editReplace(body, "{ println() }")}, nil
+						},
+					})
+					return true
+				})
+			}
 		}
 	}
 	return out
